@@ -18,7 +18,7 @@ VARIABLES phase,    \* "init" | "parsed" | "rendered" | "reparsed"
 
 vars == <<phase, q, m, kb, csv, cl, res>>
 
-NoResult == [entries |-> <<>>, blankcsv |-> FALSE]
+NoResult == [entries |-> <<>>, zero |-> <<>>, blankcsv |-> FALSE]
 
 Init == /\ phase = "init" /\ kb = FALSE /\ csv = FALSE /\ cl = FALSE /\ res = NoResult
         /\ \/ q \in SeqsUpTo(Alphabet, MaxLen) \cup Extra /\ m = <<>>
@@ -51,6 +51,8 @@ ParseTotal ==
               /\ (res.entries[i].shape = "scalar" => Len(res.entries[i].v) = 1)
               /\ \A j \in 1..Len(res.entries) : res.entries[j].k = res.entries[i].k => j = i
         /\ (res.blankcsv => csv /\ ~kb)
+        /\ ZeroNames(res) \cap Names(res) = {} /\ Cardinality(ZeroNames(res)) = Len(res.zero)
+        /\ (res.zero # <<>> => res.blankcsv)
 
 (* dropping blanks only filters: what is read without blanks is what is read with them, blanks removed *)
 BlanksOnlyFilter ==
@@ -58,6 +60,7 @@ BlanksOnlyFilter ==
         LET with == Parse(q, TRUE, csv)
             wout == Parse(q, FALSE, csv)
         IN  /\ Names(wout) \subseteq Names(with)
+            /\ ZeroNames(wout) \subseteq Names(with) /\ ZeroNames(with) = {}      \* zero values only by dropping blanks
             /\ \A n \in Names(with) : ValuesFor(wout, n) = SelectSeq(ValuesFor(with, n), NonEmpty)
 
 (* without CSV splitting every kept field is exactly one value *)
